@@ -78,6 +78,40 @@ def run(ctx):
             else:
                 ctx.violation("C17:offender-outcome:%s:%s" % (f["class"], f["observed"]),
                               "offender of class %s observed %s (%s), allowed outcomes exclude it" % (f["class"], f["observed"], f["detail"]), replay=f)
+    # the TLS listener: offenders that misbehave inside the TLS handshake and keep their sockets open (HostileTLS.tla)
+    tres = ctx.tlc_must_pass("HostileTLS", "HostileTLS_thorough.cfg" if t else "HostileTLS_quick.cfg", workers=2, timeout=300, name="hostile-tls")
+    tseqs = []
+    for line in tres.output.splitlines():
+        if line.startswith('<<"TLSSEQ", '):
+            tseqs.append(json.loads(line[len('<<"TLSSEQ", '):-2]))
+    tseqs = list(dict.fromkeys(tseqs))
+    if len(tseqs) < 30:
+        raise core.Inconclusive("TLC exported too few TLS-listener sequences (%d)" % len(tseqs))
+    rnd.shuffle(tseqs)
+    if not t:
+        # every class at least once, then a few more
+        pick, seen_t = [], set()
+        for s_ in tseqs:
+            acts = {x["a"] for x in json.loads(s_)}
+            if not acts <= seen_t:
+                pick.append(s_)
+                seen_t |= acts
+        tseqs = pick + tseqs[:6]
+    tpath = ctx.path("hostile_tls_seqs.jsonl")
+    open(tpath, "w").write("\n".join(tseqs) + "\n")
+    tout = ctx.path("hostile_tls.json")
+    ctx.drv(["tlsfront", "-bin", binp, "-in", tpath, "-out", tout, "-dir", ctx.scratch], timeout=3000)
+    tr = json.load(open(tout))
+    for f in tr.get("findings") or []:
+        acts = [x["a"] for x in f["sequence"][:f["step"] + 1]]
+        key = "C17:tls-listener:%s:after=%s" % (re.sub(r"[^a-z0-9]+", "-", f["what"].lower())[:60].strip("-"), acts[-1])
+        ctx.violation(key, "TLS listener, after %s: %s (%s)" % (" , ".join(acts), f["what"], f["detail"][:300]), replay=f)
+    total["events"] += tr["steps"]
+    total["canary_checks"] += tr["canaries"]
+    total["sequences"] += tr["sequences"]
+    for k, v in (tr.get("offender_observations") or {}).items():
+        outcomes["tls:" + k] = v
+        classes[k.split(" -> ")[0]] = classes.get(k.split(" -> ")[0], 0) + v
     if total["events"] < 100:
         raise core.Inconclusive("too few hostile events executed")
     ctx.assumptions += ["abstract classes with listed concrete variants and seeded contents, not coverage-guided byte fuzzing; declared lengths up to 15 MiB; "
